@@ -62,8 +62,21 @@ POS_RE = re.compile(r'line (\d+), column (\d+)')
 KEY_RE = re.compile(r'"([^"\n]*)"')
 
 
+_audit = {'on': False, 'events': [], 'installed': False}
+
+
+def _audit_hook(event, args):
+    if not _audit['on']:
+        return
+    if event == 'import' and args and 'verif_canary' in str(args[0]):
+        _audit['events'].append('import ' + str(args[0]))
+    elif event in ('os.system', 'subprocess.Popen', 'os.exec',
+                   'os.posix_spawn', 'os.fork'):
+        _audit['events'].append(event)
+
+
 def observe(case, style='flow', flavor=0, extra=False, regperm=0,
-            doc=None, want_value=False):
+            doc=None, want_value=False, canary=False):
     """Run one load.  Returns a JSON-able observation."""
     c = ctx()
     y = c['yatiml']
@@ -78,6 +91,14 @@ def observe(case, style='flow', flavor=0, extra=False, regperm=0,
     fn = load_fn(mid, dt, flavor, extra, regperm)
     del modelgen.LOG[:]
     obs = {'text': text, 'style': style, 'flavor': flavor, 'lines': lines}
+    if canary:
+        import sys
+        if not _audit['installed']:
+            sys.addaudithook(_audit_hook)
+            _audit['installed'] = True
+        sys.modules.pop('verif_canary', None)
+        _audit['events'] = []
+        _audit['on'] = True
     try:
         v = fn(text)
         obs['outcome'] = 'VAL'
@@ -91,6 +112,13 @@ def observe(case, style='flow', flavor=0, extra=False, regperm=0,
         obs['cited'] = [[int(a), int(bb)] for a, bb in
                         POS_RE.findall(str(e))]
         obs['quoted'] = KEY_RE.findall(str(e))
+    if canary:
+        import sys
+        _audit['on'] = False
+        ev = list(_audit['events'])
+        if 'verif_canary' in sys.modules:
+            ev.append('verif_canary in sys.modules')
+        obs['canary'] = ev
     log = []
     for kind, defcls, clsarg, kw in modelgen.LOG:
         if kind == 'init':
